@@ -6,7 +6,7 @@
    notification instants, and every schedule: [reach c ns s] = the loop can be in state [s] after some
    sequence of handled select cases, notifications and productions, whatever `select` picked among
    simultaneously ready cases.  Time is in nanoseconds; [prods s] lists (start, duration) newest first. *)
-From Coq Require Import ZArith List Bool.
+From Coq Require Import ZArith NArith List Bool.
 From Verif Require Import Model.Lazy Proofs.LazyProofs.
 Import ListNotations.
 Open Scope Z_scope.
@@ -91,6 +91,42 @@ Theorem C17_never_blocks_full : forall c s, exists ch s', step c s ch = Some s'.
 Proof. exact progress. Qed.
 Print Assumptions C17_never_blocks_full.
 
+(* ---- histories: every notification instant of a run, and the reaper as their producer ---------------- *)
+
+(* the two response clauses at the level of whole histories: for EVERY notification instant [x] of the
+   run (wherever it falls relative to the two timers, to the start-up sleep and to productions in
+   flight) and every reachable state, [answered c x s] (Model/Lazy.v): a production starts in
+   [x, x + block interval], or — x strictly inside a production — a further production starts after
+   that production's end and no later than the block timer it re-armed. *)
+Theorem C17_every_notification_answered_full : forall c ns s x,
+  c_lazy c = true -> reach c ns s -> In x ns -> answered c x s.
+Proof. exact every_notification_answered. Qed.
+Print Assumptions C17_every_notification_answered_full.
+
+(* Reaper.SubmitTxs: each batch of new transactions the sequencer accepted is non-empty and emits a
+   notification at that instant — for all histories of executor answers (errors, repeated and
+   duplicated transactions) and sequencer refusals ... *)
+Theorem C17_reaper_notifies_full : forall evs x b,
+  In (x, b) (rsubs evs) -> b <> [] /\ In x (rnotifs evs).
+Proof. exact reaper_sub_notifies. Qed.
+Print Assumptions C17_reaper_notifies_full.
+
+(* ... and the reaper notifies only then *)
+Theorem C17_reaper_notifies_only_new_full : forall evs x,
+  In x (rnotifs evs) -> exists b, b <> [] /\ In (x, b) (rsubs evs).
+Proof. exact reaper_notify_has_sub. Qed.
+Print Assumptions C17_reaper_notifies_only_new_full.
+
+(* no lost wake-up over histories of reaper submissions: whatever the reaper's history [evs] and
+   whatever other notifications [extra], every batch of transactions handed to the sequencer — before,
+   DURING or after a production in flight — is answered: a block within one block interval, never the
+   idle interval. *)
+Theorem C17_reaper_no_lost_wakeup_full : forall c extra evs s x b,
+  c_lazy c = true -> reach c (extra ++ rnotifs evs) s -> In (x, b) (rsubs evs) ->
+  b <> [] /\ answered c x s.
+Proof. exact reaper_tx_answered. Qed.
+Print Assumptions C17_reaper_no_lost_wakeup_full.
+
 (* ---- non-vacuity: concrete schedules meeting the hypotheses ---------------------------------------- *)
 
 (* block time 1 s, lazy interval 3 s, productions of 10 ms, no start-up sleep *)
@@ -163,3 +199,34 @@ Qed.
 Example ex_rate_witness :
   exists s, reach refute_cfg [] s /\ prods s = [(1000 * ms, 0); (0, 0)] /\ eff_bt refute_cfg = 2000 * ms.
 Proof. exact rate_refuted_trace. Qed.
+
+(* reaper: tx 1 submitted at 1.2 s (idle) -> production at 2 s (500 ms); the executor lists tx 1 again
+   at 1.5 s (nothing new: no call, no notification); tx 3 refused by the sequencer at 1.7 s (no
+   notification, not marked seen); tx 2 (listed twice, with tx 1) submitted at 2.2 s INSIDE the production
+   -> further production at 3 s *)
+Definition ex_revs : list (Z * rin) :=
+  [ (1200 * ms, {| ri_get := Some [1%N]; ri_ok := true |});
+    (1500 * ms, {| ri_get := Some [1%N]; ri_ok := true |});
+    (1600 * ms, {| ri_get := None; ri_ok := true |});
+    (1700 * ms, {| ri_get := Some [3%N]; ri_ok := false |});
+    (2200 * ms, {| ri_get := Some [1%N; 2%N; 2%N]; ri_ok := true |}) ].
+
+Example ex_reaper_history :
+  rsubs ex_revs = [(1200 * ms, [1%N]); (2200 * ms, [2%N])] /\
+  rnotifs ex_revs = [1200 * ms; 2200 * ms] /\
+  rcalls ex_revs = [(1200 * ms, ([1%N], true)); (1700 * ms, ([3%N], false)); (2200 * ms, ([2%N], true))].
+Proof. vm_compute. repeat split; reflexivity. Qed.
+
+Example ex_reaper_lost_wakeup :
+  exists s, reach ex_cfg2 ([] ++ rnotifs ex_revs) s /\ In (2200 * ms, [2%N]) (rsubs ex_revs) /\
+    In (2000 * ms, 500 * ms) (prods s) /\ 2000 * ms < 2200 * ms <= 2000 * ms + 500 * ms /\
+    next_fire (eff_bt ex_cfg2) (2000 * ms, 500 * ms) < now s /\
+    rev (map fst (prods s)) = [0; 2000 * ms; 3000 * ms].
+Proof.
+  destruct (run ex_cfg2 (init ex_cfg2 ([] ++ rnotifs ex_revs)) [CLazy; CBlock; CEnv; CRecv; CBlock; CRecv; CBlock]) as [s|] eqn:E;
+    [|vm_compute in E; discriminate].
+  exists s. split; [eapply run_reach; exact E|]. vm_compute in E; inversion E; subst s.
+  split; [vm_compute; right; left; reflexivity|].
+  split; [vm_compute; right; left; reflexivity|].
+  vm_compute. repeat split; try reflexivity; intro HH; discriminate HH.
+Qed.
